@@ -41,6 +41,7 @@ inductive Ex where
   | pm (k : Nat)             -- pm[k][0]
   | lenPm                    -- len(pm)
   | psParams                 -- ps(params)
+  | tab                      -- the tab stop of the enclosing loop over vt.tabStop
   deriving DecidableEq, Repr, Inhabited
 
 inductive Cmp where
@@ -105,6 +106,20 @@ inductive Stmt where
   | setSpace (r c : Ex)
   /-- `vt.activeScreen[r][c].Style = vt.cursor.Style` -/
   | setPen (r c : Ex)
+  /-- `for _, ts := range vt.tabStop { body }` (`ts` is `Ex.tab`) -/
+  | forTabs (body : Stmt)
+  /-- `for i := len(vt.tabStop) - 1; i >= 0; i -= 1 { body }` (`vt.tabStop[i]` is `Ex.tab`) -/
+  | forTabsDown (body : Stmt)
+  /-- `tabs := []column{}` (a local slice of tab stops) -/
+  | tabsNew
+  /-- `tabs = append(tabs, tab)` inside a loop over vt.tabStop -/
+  | tabsAppendTab
+  /-- `vt.tabStop = tabs` -/
+  | tabsStore
+  /-- `vt.tabStop = []column{}` -/
+  | tabsClear
+  /-- `vt.tabStop = append(vt.tabStop, vt.cursor.col)` -/
+  | tabsPushCol
   /-- `ch := vt.activeScreen[r][c]` (a copy of the cell, held in the frame) -/
   | loadCell (r c : Ex)
   /-- `vt.activeScreen[r][c].Character = ch.Character` -/
